@@ -20,6 +20,12 @@ use tokio::sync::mpsc;
 
 type EvLog = Arc<Mutex<Vec<(u64, u64, String)>>>;
 
+/// abort handles of tasks spawned from inside other tasks (they own Session / Early objects)
+static SUBTASKS: Mutex<Vec<tokio::task::AbortHandle>> = Mutex::new(Vec::new());
+fn track<T: Send + 'static>(h: tokio::task::JoinHandle<T>) {
+    SUBTASKS.lock().push(h.abort_handle());
+}
+
 struct AppLayer {
     invites: mpsc::UnboundedSender<IncomingRequest>,
     log: EvLog,
@@ -130,7 +136,7 @@ async fn drive_early(mut early: Early, log: EvLog, start: tokio::time::Instant, 
             Ok(EarlyResponse::Success(session, r)) => {
                 let stag = r.base_headers.to.tag.as_ref().map(|t| t.to_string()).unwrap_or_default();
                 log.lock().push((next_seq(), now_ms(start), format!("early-session:{}:{}", tag, describe_dialog(&session.dialog))));
-                tokio::spawn(drive_session(session, log.clone(), start, stag, refresh_mode.clone()));
+                track(tokio::spawn(drive_session(session, log.clone(), start, stag, refresh_mode.clone())));
                 break;
             }
             Ok(EarlyResponse::Terminated) => {
@@ -450,12 +456,12 @@ pub async fn run_case(case: Vec<String>) -> String {
                             Ok(Response::Early(early, r, rseq)) => {
                                 let tag = r.base_headers.to.tag.as_ref().map(|t| t.to_string()).unwrap_or_default();
                                 lg.lock().push((next_seq(), now_ms(start), format!("early:{}:{}:{}", tag, r.line.code.into_u16(), rseq.map(|r| r.0.to_string()).unwrap_or("-".into()))));
-                                tokio::spawn(drive_early(early, lg.clone(), start, tag, rm.clone()));
+                                track(tokio::spawn(drive_early(early, lg.clone(), start, tag, rm.clone())));
                             }
                             Ok(Response::Session(session, r)) => {
                                 let tag = r.base_headers.to.tag.as_ref().map(|t| t.to_string()).unwrap_or_default();
                                 lg.lock().push((next_seq(), now_ms(start), format!("session:{}:{}", tag, describe_dialog(&session.dialog))));
-                                tokio::spawn(drive_session(session, lg.clone(), start, tag, rm.clone()));
+                                track(tokio::spawn(drive_session(session, lg.clone(), start, tag, rm.clone())));
                             }
                             Ok(Response::Finished) => {
                                 lg.lock().push((next_seq(), now_ms(start), "finished".into()));
@@ -502,6 +508,17 @@ pub async fn run_case(case: Vec<String>) -> String {
                 }
             }
             "wait" => {}
+            "abortall" => {
+                // the application drops everything it holds at this instant (C16: early drops)
+                for t in tasks.drain(..) {
+                    t.abort();
+                }
+                for h in SUBTASKS.lock().drain(..) {
+                    h.abort();
+                }
+                drop(acceptor.lock().await.take());
+                while irx.try_recv().is_ok() {}
+            }
             other => panic!("bad action {}", other),
         }
         settle_now().await;
@@ -513,13 +530,32 @@ pub async fn run_case(case: Vec<String>) -> String {
     for t in &tasks {
         t.abort();
     }
+    // C16: drop every object the application holds, let the longest protocol timer pass, read the tables again
+    let mut quiesced = String::new();
+    if setup.contains("quiesce") {
+        for h in SUBTASKS.lock().drain(..) {
+            h.abort();
+        }
+        drop(acceptor.lock().await.take());
+        while irx.try_recv().is_ok() {}
+        drop(irx);
+        settle_now().await;
+        tokio::time::sleep(Duration::from_millis(70_000)).await;
+        settle_now().await;
+        let c = endpoint.verif_counts();
+        let d = endpoint[dialog_layer].verif_counts();
+        let i = endpoint[invite_layer].verif_counts();
+        quiesced = format!(" quiesced=tsx{}/tp{}/dlg{}/backlog{}/cancel{}", c.0, c.1, d.0, d.1, i);
+    } else {
+        SUBTASKS.lock().clear();
+    }
     let mut all: Vec<(u64, u64, String)> = log.lock().clone();
     for w in wire.lock().iter() {
         all.push((w.3, w.0, format!("W:{}", describe_wire(&w.2))));
     }
     all.sort();
     let mut out: Vec<String> = all.iter().map(|(_, ms, s)| format!("{}@{}", s, ms)).collect();
-    out.push(format!("tables=tsx{}/tp{}/dlg{}/backlog{}/cancel{}", counts.0, counts.1, dcounts.0, dcounts.1, icount));
+    out.push(format!("tables=tsx{}/tp{}/dlg{}/backlog{}/cancel{}{}", counts.0, counts.1, dcounts.0, dcounts.1, icount, quiesced));
     let _ = Duration::from_secs(0);
     out.join(" ")
 }
